@@ -1,6 +1,6 @@
 SPECIFICATION Spec
 CONSTANTS Configs <- MCConfigs OptNames <- MCOptNames SecNames <- MCSecNames Values <- MCValues
-          Decos <- MCDecosT MaxNodes = 3 MaxDepth = 2
+          Decos <- MCDecosP MaxNodes = 2 MaxDepth = 2
 VIEW TextView
 INVARIANTS TypeOK
 POSTCONDITION SameCount
